@@ -120,12 +120,30 @@ def drive(recipe):
     """Execute the session's calls in the recorded order in this process."""
     calls = []
     impl = []
-    for call in recipe["calls"]:
+    pre = {}
+    if recipe.get("threads"):
+        # the calls of this session are issued from several threads at once (any schedule); each answer is then judged as usual
+        from concurrent.futures import ThreadPoolExecutor
+
+        def safe(call):
+            try:
+                return _do_call(call)
+            except Exception as e:
+                return e
+        with ThreadPoolExecutor(max_workers=int(recipe["threads"])) as ex:
+            for k, res in enumerate(ex.map(safe, recipe["calls"])):
+                pre[k] = res
+    for k_call, call in enumerate(recipe["calls"]):
         route, method, a, b, c = call
         rec = {"route": route, "method": method, "a": a, "b": b, "c": c, "exc": "", "ndim": 0,
                "nrows": 0, "ncols": 0, "rows": [], "lo": [], "offgrid": False}
         try:
-            ret, text = _do_call(call)
+            if k_call in pre:
+                if isinstance(pre[k_call], Exception):
+                    raise pre[k_call]
+                ret, text = pre[k_call]
+            else:
+                ret, text = _do_call(call)
             impl.append(text)
             out = np.array(ret, copy=True)
             # a caller may do what it likes with the array it was handed (rescale it in place, ...): later answers must
@@ -294,6 +312,27 @@ def run(ctx, explain=False):
         else:
             calls = [["front", first, n, D, sd], ["front", second, n, D, sd], ["front", first, n, D, sd], ["batch", second, sd, sd + n - 1, D]]
         sessions.append({"calls": calls, "source": "both-methods-in-turn"})
+    # a stream read in consecutive chunks (each batch starts where the last one ended), across a power of two: order kept
+    for e in (16, 17, 18, 19):
+        D = rng.choice([1, 2, 3, 7])
+        lo = (1 << e) - rng.randint(300, 500)
+        calls = []
+        for _ in range(4):
+            hi = lo + rng.randint(120, 220)
+            calls.append(["batch", "sobol", lo, hi, D])
+            lo = hi + 1
+        calls += [["single", "sobol", sd, D, 0] for sd in ((1 << e) - 1, 1 << e, (1 << e) + 1, lo - 1)]
+        sessions.append({"calls": calls, "source": "consecutive-chunks"})
+    # the same far windows asked from several threads at once
+    for j in range(ctx.pick(3, 12)):
+        D = rng.choice([1, 2, 3, 5, 16])
+        calls = []
+        for _ in range(12):
+            n = rng.choice([8, 33, 64, 200])
+            st = rng.randint(20 * n, 10 ** 6 - n)
+            calls.append(["batch", "sobol", st, st + n - 1, D])
+        calls += [list(c) for c in calls[:4]]
+        sessions.append({"calls": calls, "source": "threads", "threads": 6})
     # windows that start at the first point: the net properties are checked on the returned numbers
     for i in range(ctx.pick(6, 40)):
         D = [1, 2, 3, 8, 40, 1000][i] if i < 6 else rng.randint(1, 1000)
